@@ -319,6 +319,13 @@ func c16Init(tb testing.TB) {
 	})
 }
 
+// c16EnsureSubjects grows the identity pool (bulk lists need hundreds of distinct subjects). Not for concurrent use.
+func c16EnsureSubjects(n int) {
+	for len(c16Subjects) < n {
+		c16Subjects = append(c16Subjects, c16NewJWKID())
+	}
+}
+
 func c16Sign(key *ecdsa.PrivateKey, kid string, claims map[string]interface{}) (string, error) {
 	k, err := jwk.FromRaw(key)
 	if err != nil {
@@ -469,6 +476,7 @@ type c16World struct {
 	armedK    int
 	beforeGet func() // fired by the link when a Get request arrives (the caller has already chosen its timestamp)
 	afterGet  func() // fired by the link right after the server produced a Get response (the response is "in flight")
+	lastPage  int    // number of entries in the last Get response that went through the link
 	abort     bool   // stop the history (the state is known to be corrupt; one signature per cause)
 	racing    bool
 	stats     struct{ polls, accepted, rejected, racesFired int }
@@ -486,6 +494,8 @@ func (w *c16World) newNode(name string, server bool) *c16Node {
 	n.eng = storage.NewTestStorageEngineInDir(x.TB, dir)
 	x.Cleanup(func() { _ = n.eng.Shutdown() })
 	n.db = n.eng.GetSQLDatabase()
+	// fixture tuning only: no fsync per commit on the scratch database (the engine keeps ONE sqlite connection, so this sticks)
+	x.NoErr(n.db.Exec("PRAGMA synchronous = OFF").Error, "pragma synchronous")
 	real := verifier.NewVerifier(c16RevStore{}, c16Resolver, resolver.DIDKeyResolver{Resolver: c16Resolver}, c16JSONLD, nil,
 		revocation.NewStatusList2021(n.db, nil, ""))
 	n.ver = &c16Verifier{Verifier: real, ok: map[string]bool{}}
@@ -571,6 +581,7 @@ func (l *c16Link) Get(ctx context.Context, endpoint string, timestamp int) (map[
 		f()
 	}
 	entries, seed, ts, err := l.w.serverGet(ctx, timestamp)
+	l.w.lastPage = len(entries)
 	if f := l.w.afterGet; f != nil {
 		l.w.afterGet = nil
 		f()
@@ -902,16 +913,34 @@ func (w *c16World) checkGet(after int, entries map[string]vc.VerifiablePresentat
 	if racing {
 		return
 	}
-	for s := 0; s < c16PoolSize; s++ {
+	// Completeness is demanded UP TO THE RETURNED TIMESTAMP: a server may hand out the list in pages, as long as the timestamp
+	// it returns with a page does not promise more than the page delivers (the client continues after that timestamp) and
+	// every request makes progress. (The current code returns everything and the list's last timestamp.)
+	subjs := make([]int, 0, len(w.list))
+	for s := range w.list {
+		subjs = append(subjs, s)
+	}
+	sort.Ints(subjs)
+	missing, beyond, pendingLive := 0, false, false
+	for _, s := range subjs {
 		e := w.list[s]
-		if e == nil {
-			continue
+		if e.ts > ts {
+			beyond = true
 		}
-		if e.ts > after && !w.expired(e) && !seen[e.id] {
-			x.Violate("get:missing", "Get(%d) does not return live %s %s of subject %d (timestamp %d)", after, e.kind, e.id, s, e.ts)
+		if e.ts > after && !w.expired(e) {
+			pendingLive = true
+		}
+		if e.ts > after && e.ts <= ts && !w.expired(e) && !seen[e.id] {
+			missing++
+			if missing <= 3 {
+				x.Violate("get:missing", "Get(%d) returned timestamp %d (%d entries) but not live %s %s of subject %d at timestamp %d", after, ts, len(entries), e.kind, e.id, s, e.ts)
+			}
 		}
 	}
-	if ts < w.epochMaxTS {
+	if pendingLive && ts <= after {
+		x.Violate("get:no-progress", "Get(%d) returned timestamp %d although live entries after %d exist", after, ts, after)
+	}
+	if ts < w.epochMaxTS && !beyond {
 		x.Violate("get:timestamp-regressed", "Get(%d) returned timestamp %d, but %d was handed out before", after, ts, w.epochMaxTS)
 	}
 	if w.seed != "" && seed != w.seed {
@@ -1772,10 +1801,8 @@ func (w *c16World) polled() {
 // ---------------------------------------------------------------------------------------------------------------------
 // run
 
-func c16Run(x *h.Ctx, c c16Case) {
-	if c.Clients < 1 || c.Clients > 2 || c.Subjects < 2 || c.Subjects > c16MaxSubjects || len(c.Ops) > 200 {
-		return
-	}
+// c16NewWorld builds the fixture: one server and c.Clients clients on separate databases, linked in-process.
+func c16NewWorld(x *h.Ctx, c c16Case) *c16World {
 	c16Init(x.TB)
 	w := &c16World{x: x, c: c, base: time.Now().Truncate(time.Second),
 		list: map[int]*c16Entry{}, lastOff: map[int]int{}, epochByID: map[string]*c16Entry{}, everByID: map[string]*c16Entry{},
@@ -1813,6 +1840,14 @@ func c16Run(x *h.Ctx, c c16Case) {
 		}
 	})
 	x.NoErr(err, "register gorm callback")
+	return w
+}
+
+func c16Run(x *h.Ctx, c c16Case) {
+	if c.Clients < 1 || c.Clients > 2 || c.Subjects < 2 || c.Subjects > c16MaxSubjects || len(c.Ops) > 200 {
+		return
+	}
+	w := c16NewWorld(x, c)
 
 	for _, op := range c.Ops {
 		if op.S < 0 || op.S >= c.Subjects || op.C < 0 || op.C >= c.Clients || op.D < 0 || op.D > 1000 ||
